@@ -19,7 +19,8 @@ def ev(patch):
                        capture_output=True, text=True)
     txt = p.stdout
     try:
-        return json.loads(txt[txt.index("{"):txt.rindex("}") + 1]), txt
+        body = txt.split("\n--- ")[0]
+        return json.loads(body[body.index("{"):body.rindex("}") + 1]), txt
     except Exception:
         return None, txt + p.stderr
 
